@@ -558,9 +558,9 @@ impl Pos {
                 _ => {}
             }
         }
-        n.halfmove = if is_capture || kind_of(p) == PAWN { 0 } else { self.halfmove + 1 };
+        n.halfmove = if is_capture || kind_of(p) == PAWN { 0 } else { self.halfmove.saturating_add(1) };
         if us == 1 {
-            n.fullmove = self.fullmove + 1;
+            n.fullmove = self.fullmove.saturating_add(1);
         }
         n.side = 1 - us;
         n
